@@ -218,7 +218,7 @@ func elemMatches(raw []byte, dt ddlType, tok string) bool {
 
 type ddlStats struct {
 	datasets, attrs, values, files int
-	kinds                         map[string]int
+	kinds                          map[string]int
 }
 
 // compareDDLNode walks GROUP/DATASET/ATTRIBUTE blocks below n, which sits at HDF5 path `path`.
